@@ -37,6 +37,8 @@ type Prog struct {
 	InlineLevel int
 	Inlined     []string
 	listOnly    bool
+	InlineOnly  map[string]bool // the helper selection this normal form was built with (nil = all eligible)
+	dropped     map[*ssa.Function]bool
 
 	roles *Roles
 	sums  map[sumKey]bool
@@ -147,8 +149,17 @@ func (p *Prog) WithInlinedSet(level int, only map[string]bool) (*Prog, error) {
 	if level == 0 {
 		return p, nil
 	}
+	if only != nil {
+		cp := map[string]bool{}
+		for k, v := range only {
+			if v {
+				cp[k] = true
+			}
+		}
+		only = cp
+	}
 	q := &Prog{Dir: p.Dir, Module: p.Module, Fset: p.Fset, Pkgs: p.Pkgs, ByPath: p.ByPath, SSAPkgs: map[string]*ssa.Package{},
-		FuncDecl: p.FuncDecl, Files: p.Files, sums: map[sumKey]bool{}, InlineLevel: level}
+		FuncDecl: p.FuncDecl, Files: p.Files, sums: map[sumKey]bool{}, InlineLevel: level, InlineOnly: only}
 	if err := q.buildSSA(); err != nil {
 		return nil, err
 	}
@@ -184,8 +195,11 @@ func (p *Prog) buildSSA() error {
 		}
 		return a.String() < b.String()
 	})
+	p.indexDeferred()
 	return nil
 }
+
+func ssautilAll(p *Prog) map[*ssa.Function]bool { return ssautil.AllFunctions(p.SSA) }
 
 // InRepo reports whether fn is a function with a body defined in the repository.
 func (p *Prog) InRepo(fn *ssa.Function) bool {
@@ -310,4 +324,14 @@ func (p *Prog) PkgRel(fn *ssa.Function) string {
 // QName = pkgrel:funcname
 func (p *Prog) QName(fn *ssa.Function) string {
 	return p.PkgRel(fn) + ":" + FName(fn)
+}
+
+// FuncOf is SSA.FuncValue for the program under analysis: a helper that exists only inlined into its
+// callers in this normal form is not a function of the program any more.
+func (p *Prog) FuncOf(obj *types.Func) *ssa.Function {
+	fn := p.SSA.FuncValue(obj)
+	if fn != nil && p.dropped[fn] {
+		return nil
+	}
+	return fn
 }
